@@ -377,7 +377,7 @@ pub fn spec() -> PropSpec {
     PropSpec {
         id: "C14",
         level: "exploration",
-        rule: "structure-aware adversarial byte strings: nests of strict-array / object / ECMA-array headers (and mixes) to depth 10 .. 100000 .. len/5 with count fields in {0, 1, 2, 65536, 2^31-1, 2^31, 2^32-1, any}, optionally followed by the structure that closes them; array / ECMA headers whose count exceeds the input; strings announcing 65535 bytes with short bodies; floods of Null / Undefined / Boolean / Number / empty string / empty object / empty array up to the size cap (1 MiB quick, 16777215 thorough); objects with up to 50000 distinct names; mutated valid encodings; raw bytes. Each case is decoded (and the result dropped) in a worker process on a 2 MiB stack; oracle: the worker survives, returns Ok or Err, peak live heap <= 192 x len + 128 KiB. Non-trivial = nesting depth >= 100 or a count / length field that exceeds the remaining input; distinct = distinct case",
+        rule: "structure-aware adversarial byte strings (incl. runs of one unit - every single byte value, stray end markers, empty containers with huge counts, ECMA arrays with numeric keys, random units - at top level and inside containers): nests of strict-array / object / ECMA-array headers (and mixes) to depth 10 .. 100000 .. len/5 with count fields in {0, 1, 2, 65536, 2^31-1, 2^31, 2^32-1, any}, optionally followed by the structure that closes them; array / ECMA headers whose count exceeds the input; strings announcing 65535 bytes with short bodies; floods of Null / Undefined / Boolean / Number / empty string / empty object / empty array up to the size cap (1 MiB quick, 16777215 thorough); objects with up to 50000 distinct names; mutated valid encodings; raw bytes. Each case is decoded (and the result dropped) in a worker process on a 2 MiB stack; oracle: the worker survives, returns Ok or Err, peak live heap <= 192 x len + 128 KiB. Non-trivial = nesting depth >= 100 or a count / length field that exceeds the remaining input; distinct = distinct case",
         assumptions: vec![
             "2 MiB is taken as the 'ordinary thread stack' (Rust's default for spawned threads)",
             "the memory bound 192 x len + 128 KiB: a decoded value costs at most 56 bytes per input byte (one Amf0Value per 1-byte Null), vector growth doubles, and one 64 KiB string buffer may be live; an allocation that trusts a count field exceeds it by orders of magnitude",
